@@ -112,6 +112,7 @@ func randDelta(r *rand.Rand, future bool) time.Duration {
 }
 
 func runC05(c *mon.Ctx) {
+	runLookalikeAttrs(c, c.N(48, 600), []string{"NotOnOrAfter(confirmation)", "NotBefore(conditions)", "NotOnOrAfter(conditions)"})
 	base := BaseTime(c.Seed)
 	pool := &SPPool{}
 	n := c.N(6000, 500000)
